@@ -1,3 +1,4 @@
+import Treepath.Model.Api
 import Treepath.Proofs.NodeLemmas
 import Treepath.Proofs.RoundTrip
 import Treepath.Proofs.Distinct
@@ -150,5 +151,58 @@ example : (J.obj [("a", .arr [.int 1, .obj [("b", .int 2)]]), ("c", .obj [])]).W
 /-- … and the restriction is needed: two recursive steps report a location twice -/
 example : ((eval [.recur, .keyWc, .recur] (.root (.obj [("a", .obj [("b", .obj [("c", .int 1)])])]))).map MNode.pathStr)
     = ["$.a", "$.a.b", "$.a.b.c", "$.a.b", "$.a.b.c"] := by decide
+
+/-! ### `==` between matches -/
+
+theorem ndChain_unfold (n : MNode J) :
+    n.ndChain = (n.dataName, n.data) :: (match n.parent with | none => [] | some p => p.ndChain) := by
+  induction n with
+  | root d => rfl
+  | child p nm d _ => rfl
+  | imag p ih => simpa [MNode.ndChain, MNode.parent, MNode.data, MNode.dataName] using ih
+  | par r f _ _ => rfl
+
+/-- the model's `matchEq` satisfies the recursive equation `Match.__eq__` is written as:
+`self.data == other.data and self.data_name == other.data_name and self.parent == other.parent`,
+with `None == None` and a match never equal to `None` -/
+theorem matchEq_is_the_recursion (a b : MNode J) :
+    matchEq a b = (J.pyEq a.data b.data && (a.dataName == b.dataName) &&
+      (match a.parent, b.parent with
+       | none, none => true
+       | some p, some q => matchEq p q
+       | _, _ => false)) := by
+  simp only [matchEq]
+  rw [ndChain_unfold a, ndChain_unfold b]
+  cases ha : a.parent <;> cases hb : b.parent <;> simp only [ndChainEq]
+  · rename_i q; rw [ndChain_unfold q]; simp [ndChainEq]
+  · rename_i p; rw [ndChain_unfold p]; simp [ndChainEq]
+
+/-- for matches of a parent-free path the chain `==` walks is `path_match_list`, last element
+first -/
+theorem ndChain_is_pathMatchList (n : MNode J) (h : parFree n = true) :
+    n.ndChain = (n.pathMatchList.map fun m => (m.dataName, m.data)).reverse := by
+  induction n with
+  | root d => rfl
+  | child p nm d ih =>
+    simp [MNode.ndChain, MNode.pathMatchList, MNode.dataName, MNode.data, ih (by simpa [parFree] using h)]
+  | imag p ih => simpa [MNode.ndChain, MNode.pathMatchList] using ih (by simpa [parFree] using h)
+  | par r f _ _ => simp [parFree] at h
+
+/-- **two Match objects compare equal iff their chains carry the same data_names and equal
+data at every level**: `==` is the element-wise comparison (Python `==` on the data, identity
+of the names) of the two `path_match_list`s, of equal length -/
+theorem eq_iff_chains (a b : MNode J) (ha : parFree a = true) (hb : parFree b = true) :
+    matchEq a b = ndChainEq (a.pathMatchList.map fun m => (m.dataName, m.data)).reverse
+                            (b.pathMatchList.map fun m => (m.dataName, m.data)).reverse := by
+  simp only [matchEq, ndChain_is_pathMatchList a ha, ndChain_is_pathMatchList b hb]
+
+/-- non-vacuity: equal data under different names is not equal; equal chains are (an `int`
+and the equal `float`, a bookkeeping twin on one side) -/
+example : matchEq (.child (.root (.arr [.int 1, .int 1])) (.idx 0) (.int 1))
+                  (.child (.root (.arr [.int 1, .int 1])) (.idx 1) (.int 1)) = false := by
+  simp [matchEq, MNode.ndChain, ndChainEq]
+example : matchEq (.child (.root (.arr [.int 1])) (.idx 0) (.int 1))
+                  (.imag (.child (.root (.arr [.half 2])) (.idx 0) (.half 2))) = true := by
+  simp [matchEq, MNode.ndChain, ndChainEq, J.pyEq, J.pyEqList, J.num2?]
 
 end Treepath.C11
